@@ -62,7 +62,8 @@ def gen_cases(tier, rng):
             for s in steps:
                 t += s
                 ts.append(t)
-            case.update(unit=unit, t0=t0, times=ts, halflife_s=rng.choice([1, 2, 5]))
+            # halflives that are not a whole number of the timestamps' unit (0.75 s, 2.5 s with second-resolution times) included
+            case.update(unit=unit, t0=t0, times=ts, halflife_s=rng.choice([1, 2, 5, 0.75, 2.5, 1.75]))
             if rng.random() < 0.25:
                 # timezone-aware timestamps in a zone with daylight saving, half-hour steps across a clock change (the elapsed
                 # time is the difference of the instants, not of the wall-clock readings)
@@ -154,7 +155,8 @@ def run_impl(case):
             if case.get("tz"):
                 ts = pd.DatetimeIndex(ts).tz_localize("UTC").tz_convert(case["tz"])
             kw["times"] = ts
-            kw["halflife"] = f"{case['halflife_s']}s"
+            hs = case["halflife_s"]
+            kw["halflife"] = f"{hs}s" if float(hs).is_integer() else f"{int(round(hs * 1000))}ms"
     index = None
     if case["container"] == "series":
         index = pd.Index([f"r{(i * 5) % max(L, 1)}_{i}" for i in range(L)])
